@@ -17,7 +17,7 @@ import (
 // report is about the program's own synchronisation (DESIGN.md §4).
 
 func randomSched(r *Rand, tasks, opsPerTask int) simrt.SchedSpec {
-	horizon := int64(700 * tasks * opsPerTask)
+	horizon := int64(2500 * tasks * opsPerTask)
 	switch r.Intn(10) {
 	case 0, 1:
 		return simrt.SchedSpec{Strategy: "rtc", Seed: r.U64()}
@@ -75,11 +75,11 @@ func genC09(seed uint64, run int, tier string) *RunSpec {
 	spec.Files = g.FileSpecs(1_700_000_000_000_000_000)
 	// files changing underneath: a second version for some files and edit events at kernel steps
 	if r.Chance(35) {
-		horizon := int64(700 * ntasks * opsPer)
+		horizon := int64(2500 * ntasks * opsPer)
 		for i := range spec.Files {
 			f := &spec.Files[i]
-			if !r.Chance(50) {
-				continue
+			if !r.Chance(50) || f.Name == "theme.yml" || strings.HasPrefix(f.Name, "data/") {
+				continue // configuration is read once at construction: outside the claim
 			}
 			c := f.Versions[0].Content
 			f.Versions = append(f.Versions, FileVersion{Content: editContent(c, "edited"), MtimeNs: f.Versions[0].MtimeNs + 5_000_000_000})
@@ -135,6 +135,8 @@ func runConcurrent(spec *RunSpec, postRender bool) *concResult {
 			}
 		}
 	}
+	sfs.ArmEdits()
+	base := simrt.Step()
 	byTask := map[int][]int{}
 	var tasks []int
 	for i, op := range spec.Ops {
@@ -149,9 +151,9 @@ func runConcurrent(spec *RunSpec, postRender bool) *concResult {
 		idxs := byTask[t]
 		fns[ti] = func() {
 			for _, i := range idxs {
-				cr.stamps[i][0] = simrt.Step()
+				cr.stamps[i][0] = simrt.Step() - base
 				cr.outs[i] = eng.Exec(i, spec.Ops[i], shared)
-				cr.stamps[i][1] = simrt.Step()
+				cr.stamps[i][1] = simrt.Step() - base
 			}
 		}
 	}
@@ -267,6 +269,27 @@ func execC09(spec *RunSpec) *Result {
 	res.Cover = append(res.Cover, fmt.Sprintf("tasks=%d", ntasks), "sched/"+spec.Kernel.Sched.Strategy, fmt.Sprintf("share=%v/warm=%v/edits=%v", spec.Share, spec.Warm, len(spec.Edits) > 0))
 	if rep.LockBlocks > 0 {
 		res.Cover = append(res.Cover, "probe/task-blocked-on-lock")
+	}
+	if !spec.Warm {
+		// two tasks loading the same page into the cold cache in one run
+		readers := map[string]int{}
+		for i, op := range spec.Ops {
+			if op.File != "" && cr.fs.Reads(i, op.File) > 0 {
+				readers[op.File]++
+			}
+		}
+		for _, n := range readers {
+			if n >= 2 {
+				res.Cover = append(res.Cover, "probe/two-tasks-in-cold-load-path")
+				break
+			}
+		}
+	}
+	switch {
+	case spec.Engine.PathFill >= 256:
+		res.Cover = append(res.Cover, "probe/path-cache-saturated")
+	case spec.Engine.PathFill > 0:
+		res.Cover = append(res.Cover, "probe/path-cache-nearly-full")
 	}
 	if rep.PoolCross > 0 {
 		res.Cover = append(res.Cover, "probe/object-recycled-across-tasks")
